@@ -191,3 +191,43 @@ Proof.
     rewrite (read_raw_der (root_tag x) (root_tag x) ib lb c (bs ++ rest) None Hi Hl Hrx eq_refl). cbn [bind].
     rewrite Hrd. reflexivity.
 Qed.
+
+(* ---- well-formedness from a successful, not absurdly long encoding: every nested content is a part of
+   the whole, so only the total length has to be bounded *)
+Fixpoint shape_ok (x : asn1) : Prop :=
+  match x with
+  | Prim t c => tag_wf t /\ t_cons t = false /\ wfb c = true
+  | Cons t l => tag_wf t /\ t_cons t = true /\
+                (fix all (l : list asn1) : Prop := match l with [] => True | y :: r => shape_ok y /\ all r end) l
+  | Raw _ => False
+  end.
+Fixpoint shapes_ok (l : list asn1) : Prop := match l with [] => True | y :: r => shape_ok y /\ shapes_ok r end.
+Lemma shape_all_eq l :
+  (fix all (l : list asn1) : Prop := match l with [] => True | y :: r => shape_ok y /\ all r end) l = shapes_ok l.
+Proof. induction l as [|y l IH]; [reflexivity|]. cbn [shapes_ok]. rewrite <- IH. reflexivity. Qed.
+Lemma pack_tlv_suffix t c bs : pack_tlv t c = Ok bs -> exists h, bs = h ++ c.
+Proof.
+  unfold pack_tlv, pack_asn1. destruct (pack_ident _ _ _) as [i|]; [|discriminate]. cbn [bind].
+  destruct (pack_length _) as [l|]; [|discriminate]. cbn [bind]. intros H. apply Ok_inj in H. subst bs.
+  exists (i ++ l). now rewrite <- app_assoc.
+Qed.
+Lemma wf_from_encode_all :
+  (forall x, forall bs, shape_ok x -> encode x = Ok bs -> len bs < P 126 -> wf_tree x) /\
+  (forall l, forall bs, shapes_ok l -> encode_list l = Ok bs -> len bs < P 126 -> wf_trees l).
+Proof.
+  apply asn1_ind2.
+  - intros t c bs (Ht & Hk & Hw) E Hl. cbn [encode] in E. destruct (pack_tlv_suffix _ _ _ E) as (h & ->).
+    rewrite len_app in Hl. pose proof (len_nonneg h). cbn [wf_tree]. repeat split; auto; try apply Ht. lia.
+  - intros t l IH bs (Ht & Hk & Hall) E Hl. rewrite shape_all_eq in Hall. rewrite encode_cons in E.
+    destruct (encode_list l) as [body|] eqn:Eb; [|discriminate]. cbn [bind] in E. destruct (pack_tlv_suffix _ _ _ E) as (h & ->).
+    rewrite len_app in Hl. pose proof (len_nonneg h). cbn [wf_tree]. split; [exact Ht|]. split; [exact Hk|]. rewrite wf_all_eq.
+    split; [apply (IH body); auto; lia|]. intros b Hb. rewrite Eb in Hb. apply Ok_inj in Hb. subst b. lia.
+  - intros b bs [].
+  - intros bs _ _ _. exact I.
+  - intros x l IHx IHl bs [Hx Hl] E Hlen. cbn [encode_list] in E.
+    destruct (encode x) as [a|] eqn:Ea; [|discriminate]. cbn [bind] in E. destruct (encode_list l) as [b|] eqn:Eb; [|discriminate]. cbn [bind] in E.
+    apply Ok_inj in E. subst bs. rewrite len_app in Hlen. pose proof (len_nonneg a). pose proof (len_nonneg b).
+    split; [apply (IHx a); auto; lia|apply (IHl b); auto; lia].
+Qed.
+Theorem wf_from_encode x bs : shape_ok x -> encode x = Ok bs -> len bs < P 126 -> wf_tree x.
+Proof. apply (proj1 wf_from_encode_all). Qed.
